@@ -1,6 +1,8 @@
 """./check <property> [--tier quick|thorough] [--replay path]"""
 import argparse
 import os
+import shutil
+import signal
 import sys
 import traceback
 
@@ -48,6 +50,16 @@ def main():
     ap.add_argument('--replay')
     a = ap.parse_args()
     run, replay = dispatch(a.prop)
+
+    def cleanup():
+        from . import common
+        if common._scratch and not os.environ.get('VERIF_KEEP_SCRATCH'):
+            shutil.rmtree(common._scratch, ignore_errors=True)
+
+    def on_term(*_):                # `timeout` / a kill: leave nothing behind
+        cleanup()
+        os._exit(143)
+    signal.signal(signal.SIGTERM, on_term)
     try:
         rc = replay(a.replay) if a.replay else run(a.tier)
     except SystemExit:
@@ -57,6 +69,7 @@ def main():
         rc = 2
     sys.stdout.flush()
     sys.stderr.flush()
+    cleanup()
     os._exit(rc)
 
 
